@@ -611,3 +611,216 @@ def replay_h_valid(detail):
 
 
 KINDS['h_valid'] = replay_h_valid
+
+
+def replay_h_ed(detail):
+    """edit distance on the real stack: real QgramTokenizer, compiled Levenshtein, real pandas."""
+    repo.load()
+    import pandas as pd
+    from py_stringmatching import QgramTokenizer
+    cs = detail['scenario']
+    prop = detail['prop']
+    ssj = repo.mod('')
+    tok = QgramTokenizer(qval=cs['q'], padding=cs['padding'], return_set=cs['return_set'])
+    bag = QgramTokenizer(qval=cs['q'], padding=cs['padding'], return_set=False)
+    tau, op = cs['threshold'], cs['comp_op']
+    L, R = scenario.real_frames(cs)
+    lines = ['entry=%s filter=%s q=%d padding=%r return_set=%r tau=%r op=%s n_jobs=%r allow_missing=%r' % (
+        cs['entry'], cs.get('filter'), cs['q'], cs['padding'], cs['return_set'], tau, op, cs['n_jobs'],
+        cs['allow_missing']), 'left:\n%s\nright:\n%s' % (L.to_string(), R.to_string())]
+    lrows = [(r[0], r[1]) for r in cs['L']['rows']]
+    rrows = [(r[0], r[1]) for r in cs['R']['rows']]
+
+    def shares(a, b):
+        ta, tb = bag.tokenize(a), bag.tokenize(b)
+        return any(x in tb for x in ta)
+    bad = False
+    try:
+        if cs['entry'] in ('ed_join', 'ed_split'):
+            out = ssj.edit_distance_join(L, R, 'id', 'id', 'attr', 'attr', tau, op, cs['allow_missing'], None, None,
+                                         'l_', 'r_', cs['out_sim_score'], cs['n_jobs'], False, tok)
+            lines.append('result:\n%s' % out.to_string())
+            seen = {}
+            for row in out.itertuples(index=False, name=None):
+                pk = (int(row[1]), int(row[2]))
+                seen[pk] = seen.get(pk, 0) + 1
+                lv = dict(lrows).get(pk[0])
+                rv = dict(rrows).get(pk[1])
+                if lv is None or rv is None:
+                    if not cs['allow_missing'] or (cs['out_sim_score'] and not ref.is_nan(row[-1])):
+                        lines.append('missing pair %r wrongly reported' % (pk,))
+                        bad = True
+                    continue
+                d = ref.levenshtein(lv, rv)
+                if seen[pk] > 1 or not ref.OPS[op](d, tau) or (cs['out_sim_score'] and row[-1] != d):
+                    lines.append('row %r: edit distance %d' % (row, d))
+                    bad = True
+            for lk, lv in lrows:
+                for rk, rv in rrows:
+                    if lv is None or rv is None:
+                        if cs['allow_missing'] and (lk, rk) not in seen:
+                            lines.append('missing pair %r absent' % ((lk, rk),))
+                            bad = True
+                        continue
+                    d = ref.levenshtein(lv, rv)
+                    if ref.OPS[op](d, tau) and shares(lv, rv) and (lk, rk) not in seen:
+                        lines.append('pair %r (%r, %r) distance %d shares a q-gram but is absent' % ((lk, rk), lv, rv, d))
+                        bad = True
+            if tok.get_return_set() != cs['return_set']:
+                lines.append('tokenizer return_set changed to %r' % tok.get_return_set())
+                bad = True
+        else:
+            f = getattr(ssj, cs['filter'])(bag, 'EDIT_DISTANCE', tau)
+            if cs['entry'] == 'filter_pair':
+                lv, rv = lrows[0][1], rrows[0][1]
+                dropped = bool(f.filter_pair(lv, rv))
+                d = ref.levenshtein(lv, rv)
+                lines.append('filter_pair(%r, %r) -> dropped=%r; edit distance %d; shares q-gram %r' % (lv, rv, dropped, d, shares(lv, rv)))
+                if prop == 'C14':
+                    a, b = len(bag.tokenize(lv)), len(bag.tokenize(rv))
+                    bad = (a or b) and dropped != (abs(a - b) > tau)
+                else:
+                    bad = dropped and d <= tau and shares(lv, rv)
+            else:
+                out = f.filter_tables(L, R, 'id', 'id', 'attr', 'attr', show_progress=False)
+                lines.append('filter_tables:\n%s' % out.to_string())
+                seen = set((int(a), int(b)) for a, b in zip(out['l_id'], out['r_id']))
+                for lk, lv in lrows:
+                    for rk, rv in rrows:
+                        d = ref.levenshtein(lv, rv)
+                        if (lk, rk) in seen:
+                            if prop == 'C14' and cs['filter'] == 'PositionFilter':
+                                a, b = len(bag.tokenize(lv)), len(bag.tokenize(rv))
+                                if abs(a - b) > tau:
+                                    lines.append('pair %r kept although q-gram counts %d,%d differ by more than %d' % ((lk, rk), a, b, tau))
+                                    bad = True
+                            continue
+                        if prop != 'C14' and d <= tau and shares(lv, rv):
+                            lines.append('pair %r (%r,%r) distance %d shares a q-gram but is dropped' % ((lk, rk), lv, rv, d))
+                            bad = True
+    except Exception as e:
+        lines.append('raised %s: %s' % (type(e).__name__, e))
+        bad = True
+    return bool(bad), '\n'.join(lines)
+
+
+KINDS['h_ed'] = replay_h_ed
+
+
+def _join_pairs(cs):
+    L, R = scenario.real_frames(cs)
+    out = scenario.call_entry(cs, L, R, scenario.real_tokenizer(cs))
+    return dict(((int(a), int(b)), s) for a, b, s in zip(out.iloc[:, 1], out.iloc[:, 2], out['_sim_score'])), out
+
+
+def _excluded(cs, lk, rk, thresholds, ops):
+    w = scenario.ConcreteWorld()
+    lv = [r for r in cs['L']['rows'] if r[cs['L']['columns'].index('id')] == lk][0][cs['L']['columns'].index('attr')]
+    rv = [r for r in cs['R']['rows'] if r[cs['R']['columns'].index('id')] == rk][0][cs['R']['columns'].index('attr')]
+    lt, rt = w.tokset(lv), w.tokset(rv)
+    n, m = len(lt), len(rt)
+    if n == 0 and m == 0:
+        return True
+    if n and m:
+        o = ref.overlap_size(lt, rt)
+        raw, rep = ref.raw_score(cs['measure'], n, m, o), ref.reported_score(cs['measure'], n, m, o)
+        for t in thresholds:
+            for op in ops:
+                if bool(ref.OPS[op](raw, t)) != bool(ref.OPS[op](rep, t)):
+                    return True
+    return False
+
+
+def replay_h_laws(detail):
+    repo.load()
+    law = detail['law']
+    s, s2 = detail['scenario'], detail['scenario2']
+    lines, bad = ['law: %s, entry %s' % (law, s['entry'])], False
+    lkeys = [r[s['L']['columns'].index('id')] for r in s['L']['rows']]
+    rkeys = [r[s['R']['columns'].index('id')] for r in s['R']['rows']]
+    try:
+        if law == 'transpose':
+            A, oa = _join_pairs(s)
+            B, ob = _join_pairs(s2)
+            Bt = dict(((b, a), v) for (a, b), v in B.items())
+            lines += ['join(A,B):\n%s' % oa.to_string(), 'join(B,A):\n%s' % ob.to_string()]
+            for lk in lkeys:
+                for rk in rkeys:
+                    if _excluded(s, lk, rk, [s['threshold']], [s['comp_op']]):
+                        continue
+                    pk = (lk, rk)
+                    if (pk in A) != (pk in Bt) or (pk in A and A[pk] != Bt[pk]):
+                        bad = True
+        elif law == 'refine':
+            A, oa = _join_pairs(s)
+            B, ob = _join_pairs(s2)
+            lines += ['threshold %r:\n%s' % (s['threshold'], oa.to_string()), 'threshold %r:\n%s' % (s2['threshold'], ob.to_string())]
+            for lk in lkeys:
+                for rk in rkeys:
+                    if _excluded(s, lk, rk, [s['threshold'], s2['threshold']], ['>=']):
+                        continue
+                    pk = (lk, rk)
+                    want = pk in A and A[pk] >= s2['threshold']
+                    if (pk in B) != want or (pk in B and B[pk] != A[pk]):
+                        bad = True
+        else:
+            res = {}
+            for op in ('>=', '>', '='):
+                res[op], o = _join_pairs(dict(s, comp_op=op))
+                lines.append("op %s:\n%s" % (op, o.to_string()))
+            for lk in lkeys:
+                for rk in rkeys:
+                    if _excluded(s, lk, rk, [s['threshold']], ['>=', '>', '=']):
+                        continue
+                    pk = (lk, rk)
+                    ge, gt, eq = pk in res['>='], pk in res['>'], pk in res['=']
+                    if ge != (gt or eq) or (gt and eq):
+                        bad = True
+    except Exception as e:
+        lines.append('raised %s: %s' % (type(e).__name__, e))
+        bad = True
+    lines.append('law %s' % ('VIOLATED' if bad else 'holds'))
+    return bad, '\n'.join(lines)
+
+
+def replay_h_pipe(detail):
+    repo.load()
+    from harness import h_laws
+    s = detail['scenario']
+    ssj = repo.mod('')
+    lines, bad = [], False
+    try:
+        J, oj = _join_pairs(s)
+        L, R = scenario.real_frames(s)
+        tok = scenario.real_tokenizer(s)
+        first = detail['first']
+        if first == 'OverlapFilter':
+            f = ssj.OverlapFilter(tok, 1)
+        else:
+            f = getattr(ssj, first)(tok, s['measure'] if s['measure'] in ('JACCARD', 'COSINE', 'DICE', 'OVERLAP') else 'JACCARD',
+                                    s['threshold'], s['allow_empty'])
+        cand = f.filter_tables(L, R, 'id', 'id', 'attr', 'attr', n_jobs=detail['n_jobs2'], show_progress=False)
+        M = ssj.apply_matcher(cand, 'l_id', 'r_id', L, R, 'id', 'id', 'attr', 'attr', tok,
+                              h_laws.raw_sim_function(s['measure']), s['threshold'], s['comp_op'],
+                              n_jobs=detail['n_jobs2'], show_progress=False)
+        P = dict(((int(a), int(b)), sc) for a, b, sc in zip(M['l_id'], M['r_id'], M['_sim_score']))
+        lines += ['join:\n%s' % oj.to_string(), '%s.filter_tables + apply_matcher:\n%s' % (first, M.to_string())]
+        rounded = s['measure'] in ('JACCARD', 'COSINE', 'DICE')
+        for lk in [r[s['L']['columns'].index('id')] for r in s['L']['rows']]:
+            for rk in [r[s['R']['columns'].index('id')] for r in s['R']['rows']]:
+                if _excluded(s, lk, rk, [s['threshold']], [s['comp_op']]):
+                    continue
+                pk = (lk, rk)
+                if (pk in J) != (pk in P):
+                    bad = True
+                elif pk in J and (round(J[pk], 4) if rounded else J[pk]) != (round(P[pk], 4) if rounded else P[pk]):
+                    bad = True
+    except Exception as e:
+        lines.append('raised %s: %s' % (type(e).__name__, e))
+        bad = True
+    lines.append('join and pipeline %s' % ('DIFFER' if bad else 'agree'))
+    return bad, '\n'.join(lines)
+
+
+KINDS['h_laws'] = replay_h_laws
+KINDS['h_pipe'] = replay_h_pipe
